@@ -23,7 +23,7 @@ func C07(r *core.Report) {
 		"R7 the request parser stores the address of a distinct variable in each optional pointer field (before and until never alias one variable). " +
 		"R11 end of chain - OffsetAndSize.IsZero holds exactly for {Offset: 0, Size: 0} and every gsfa reader loop that follows the chain of linked-log records stops, as far as the pointer is concerned, exactly when it is nil or zero (decided by the truth table of the test over nil / Offset == 0 / Size == 0, helpers inlined): the record stored first in a log sits at offset 0 and must still be read. " +
 		"R12 the bounds before and until are compared with signatures of the history only, never with each other. " +
-		"R13 after a linked-log record was read, the walk goes on to the next record only through the loop over that record's locations (or when it is empty / the read failed). R14 the loops that collect the per-epoch address-index readers have no early exit: an epoch without an index is skipped, not the end of the list. R13 also: the slice of locations read from a record is not re-sliced or replaced before the loop over it - the before / until / limit tests see every location of the record. R15 the flag that records that the `before` marker was passed is initialised outside every loop: re-initialised inside the loop over the epochs it forgets the marker at each epoch boundary. Not decided: the arithmetic of limit across epochs and the result for concrete histories."
+		"R13 after a linked-log record was read, the walk goes on to the next record only through the loop over that record's locations (or when it is empty / the read failed). R14 the loops that collect the per-epoch address-index readers have no early exit: an epoch without an index is skipped, not the end of the list. R13 also: the slice of locations read from a record is not re-sliced or replaced before the loop over it - the before / until / limit tests see every location of the record. R15 the flag that records that the `before` marker was passed is initialised outside every loop: re-initialised inside the loop over the epochs it forgets the marker at each epoch boundary. Not decided: the arithmetic of limit across epochs and the result for concrete histories. R11 also: where the next chain pointer comes from a helper, the helper answers nil only under IsZero(), Offset == 0 and Size == 0 of the same value, or a nil test of a pointer parameter."
 	r.Assumptions = []string{"Go map iteration order is unspecified (language spec)"}
 	c07MapOrder(r)
 	c07ReaderOrder(r)
@@ -38,6 +38,7 @@ func C07(r *core.Report) {
 	slotWalkStopsOnlyBelowRange(r, "C07.R10")
 	r.Floor("C07.R10", 1)
 	chainEndExact(r, "C07.R11")
+	chainPointerHelpers(r, "C07.R11")
 	c07BoundsNotComparedWithEachOther(r)
 	c07EveryLocationExamined(r)
 	c07EveryEpochConsidered(r)
@@ -794,12 +795,13 @@ func c07WindowShape(r *core.Report) {
 // on the way to an append is the size of the whole result (len of the appended slice, or a Count() that sums over the
 // whole map), never the size of one per-epoch part of it.
 func c07LimitCountsWholeResult(r *core.Report) {
-	const rule = "C07.R6"
+	limitCountsWholeResult(r, "C07.R6", "gsfa.(*GsfaReaderMultiepoch).iterBeforeUntil", "gsfa.(*GsfaReaderMultiepoch).iterBeforeUntilSlot",
+		"gsfa.(*GsfaReader).Get", "gsfa.(*GsfaReader).GetBeforeUntil")
+}
+
+func limitCountsWholeResult(r *core.Report, rule string, keys ...string) {
 	p := r.Prog
-	for _, key := range []string{
-		"gsfa.(*GsfaReaderMultiepoch).iterBeforeUntil", "gsfa.(*GsfaReaderMultiepoch).iterBeforeUntilSlot",
-		"gsfa.(*GsfaReader).Get", "gsfa.(*GsfaReader).GetBeforeUntil",
-	} {
+	for _, key := range keys {
 		f := r.Anchor(rule, key)
 		if f == nil {
 			continue
